@@ -21,10 +21,12 @@ Clauses
   C16_HostPortSplitJoin  hostportjoin / hostportsplit are mutually inverse
 """
 
+import hashlib
 import json
 import os
 import sys
 import time
+from concurrent.futures import ThreadPoolExecutor
 from multiprocessing import Pool
 
 from harness import tlc, runner, MachineryError, require_repo
@@ -66,12 +68,17 @@ def _intset(xs):
     return ", ".join(str(x) for x in xs)
 
 
-def gen_consts(tier):
+def gen_runs(tier):
+    """Generator runs: (name, constants, what is printed, TLC workers).
+    'wide' varies scheme x host x port and has the full segment alphabet with
+    few characters per URI; 'deep' has a small alphabet (a letter that is also a
+    hex digit, '%', a delimiter, a non-ASCII character) and longer segments on
+    the reference base."""
     if tier == "quick":
-        return dict(
+        wide = dict(
             schemes=["coap", "coaps", "coaptcp"],
-            hosts=["host", "dotted", "aring", "bigring", "ip4a", "ip6lo", "ip6db8", "ip6zone"],
-            ports=[0, 5683, 5684, 61616],
+            hosts=["host", "aring", "bigring", "ip4a", "ip6lo", "ip6zone"],
+            ports=[0, 5683, 61616],
             alphabet=ALPHABET_QUICK,
             maxpath=2,
             maxquery=2,
@@ -80,18 +87,45 @@ def gen_consts(tier):
             basebudget=1,
             profiles=[1, 2, 3, 4, 5, 6],
         )
-    return dict(
+        deep = dict(
+            schemes=["coap"],
+            hosts=["host"],
+            ports=[0],
+            alphabet=[97, 37, 229],
+            maxpath=2,
+            maxquery=2,
+            rich=3,
+            basesegs=1,
+            basebudget=1,
+            profiles=[1, 4, 5, 6],
+        )
+        return [("wide", wide, "all", 10), ("deep", deep, "cases", 3)]
+    wide = dict(
         schemes=["coap", "coaps", "coaptcp", "coapstcp", "coapws", "coapsws"],
         hosts=["host", "dotted", "aring", "bigring", "numeric", "ip4a", "ip4b", "ip6lo", "ip6db8", "ip6zone"],
         ports=[0, 1, 80, 5683, 5684, 61616, 65535],
         alphabet=ALPHABET_THOROUGH,
         maxpath=2,
         maxquery=2,
-        rich=3,
-        basesegs=2,
+        rich=2,
+        basesegs=1,
         basebudget=1,
         profiles=[1, 2, 3, 4, 5, 6],
     )
+    deep = dict(
+        schemes=["coap"],
+        hosts=["host"],
+        ports=[0],
+        alphabet=[97, 37, 229],
+        maxpath=2,
+        maxquery=2,
+        rich=4,
+        basesegs=1,
+        basebudget=1,
+        profiles=[1, 2, 3, 4, 5, 6],
+    )
+    deep3 = dict(deep, alphabet=[97, 37, 47, 38, 8364], rich=3)
+    return [("wide", wide, "all", 8), ("deep", deep, "cases", 3), ("deep3", deep3, "cases", 3)]
 
 
 def pair_consts(tier):
@@ -110,7 +144,7 @@ def pair_consts(tier):
         )
     return dict(
         schemes=["coap"],
-        hosts=["host", "ip6lo"],
+        hosts=["host"],
         ports=[0, 5683],
         alphabet=[97, 47, 63, 38, 37, 229],
         maxpath=2,
@@ -135,7 +169,7 @@ def cfg_text(c, pair, emit, invariants):
         basebudget=c["basebudget"],
         profiles=_intset(c["profiles"]),
         pair="TRUE" if pair else "FALSE",
-        emit="TRUE" if emit else "FALSE",
+        emit='"%s"' % emit,
         invariants="\n".join("INVARIANT " + i for i in invariants),
     )
 
@@ -168,51 +202,70 @@ def opt_key(o):
     return (o["scheme"], o["hk"], o["host"], o["ip"], o["port"], tuple(o["path"]), tuple(o["query"]))
 
 
-def build_cases(r):
-    """From the C16U lines: text cases (deduplicated by text) and option-set cases."""
-    vals = tlc.printed_values(r, "C16U")
-    if len(vals) != r.distinct:
-        raise MachineryError("TLC found %d states but %d C16U lines were parsed" % (r.distinct, len(vals)))
-    texts = {}
-    optsets = {}
-    for v in vals:
-        _, tx, aopts, anf, degenerate = v
-        accept = [opt_from_tuple(t) for t in aopts]
-        for s in list(tx) + list(anf):
-            if not isinstance(s, str) or "<" in s or ">" in s or not s.isascii():
-                raise MachineryError("unexpected text from TLC: %r" % (s,))
-        case = {"accept": accept, "nf": list(anf), "degenerate": degenerate}
-        for text in tx:
-            old = texts.get(text)
-            if old is None:
-                texts[text] = case
-            elif [opt_key(o) for o in old["accept"]] != [opt_key(o) for o in accept] or old["nf"] != case["nf"]:
-                raise MachineryError("the model prints two different expectations for the text %r" % text)
-        k = opt_key(accept[0])
-        if k in optsets and optsets[k]["nf"] != case["nf"]:
-            raise MachineryError("the model prints two normal forms for one option set %r" % (k,))
-        optsets[k] = {"opt": accept[0], "nf": list(anf), "degenerate": degenerate}
-    # the model's own normal forms must be injective on what was printed (cheap cross-check of the pair run)
-    seen = {}
-    for k, c in optsets.items():
-        if c["degenerate"]:
-            continue
-        if seen.setdefault(c["nf"][0], k) != k:
-            raise MachineryError("model: two option sets with the normal form %r" % c["nf"][0])
-    tcases = [dict(kind="text", text=t, **c) for t, c in texts.items()]
-    ocases = [dict(kind="opts", **c) for c in optsets.values()]
-    return tcases, ocases, len(vals)
+def parse_line(line):
+    """The spec prints PrintT(ToString(<<tag, ...>>)): one quoted line per value,
+    made of tuples, strings and numbers only."""
+    if not line.endswith('>>"'):
+        raise MachineryError("truncated line in TLC output: %r" % line[:200])
+    body = line[1:-1].replace('\\"', '"')
+    if "\\" in body:
+        raise MachineryError("unexpected escape in TLC output: %r" % line[:200])
+    try:
+        return json.loads(body.replace("<<", "[").replace(">>", "]"))
+    except ValueError as e:
+        raise MachineryError("unparsable line in TLC output: %r (%s)" % (line[:200], e))
 
 
-def build_static(r):
-    rej = []
-    for v in tlc.printed_values(r, "C16R"):
-        _, cls, hk, judged, text = v
-        rej.append({"kind": "reject", "cls": cls, "hk": hk, "judged": judged, "text": text})
-    hp = []
-    for v in tlc.printed_values(r, "C16H"):
-        _, kind, host, port, joined = v
-        hp.append({"kind": "hostport", "hk": kind, "host": host, "port": port, "joined": joined})
+def case_lines(out):
+    """{tag: [line, ...]} of the lines the spec printed."""
+    lines = {"C16U": [], "C16R": [], "C16H": []}
+    for line in out.splitlines():
+        if line.startswith('"<<\\"C16'):
+            lines[line[5:9]].append(line)
+    return lines
+
+
+def text_of(chars):
+    """A text is printed as the sequence of its characters."""
+    s = "".join(chars)
+    if len(s) != len(chars) or not s.isascii() or "<" in s or ">" in s:
+        raise MachineryError("unexpected text from TLC: %r" % (chars,))
+    return s
+
+
+def state_cases(v, all_variants):
+    """One C16U value (= one state of the generator) -> its text cases and its option-set case."""
+    _, tx, aopts, anf, degenerate = v
+    accept = [opt_from_tuple(t) for t in aopts]
+    tx = [text_of(t) for t in tx]
+    anf = [text_of(t) for t in anf]
+    tcases = []
+    for n, text in enumerate(tx):
+        c = {"kind": "text", "text": text, "accept": accept, "nf": anf, "degenerate": degenerate}
+        if not (all_variants or n in (0, len(tx) - 1)):
+            c["novariant"] = 1  # quick tier: the set_uri_host=False variant only for the first and last profile
+        tcases.append(c)
+    ocase = {"kind": "opts", "opt": accept[0], "nf": anf, "degenerate": degenerate}
+    return tcases, ocase
+
+
+def expectation_digest(c):
+    return hashlib.sha1(repr(([opt_key(o) for o in c["accept"]], c["nf"])).encode()).hexdigest()[:16]
+
+
+def build_static(lines):
+    rej = {}
+    for line in lines["C16R"]:
+        _, cls, hk, judged, text = parse_line(line)
+        text = text_of(text)
+        rej.setdefault((cls, text), {"kind": "reject", "cls": cls, "hk": hk, "judged": judged, "text": text})
+    rej = list(rej.values())
+    hp = {}
+    for line in lines["C16H"]:
+        _, kind, host, port, joined = parse_line(line)
+        joined = text_of(joined)
+        hp[joined] = {"kind": "hostport", "hk": kind, "host": host, "port": port, "joined": joined}
+    hp = list(hp.values())
     if not rej or not hp:
         raise MachineryError("TLC printed no reject / host:port cases")
     return rej, hp
@@ -224,7 +277,7 @@ _A = {}
 
 
 def _init_worker():
-    aiocoap = require_repo()
+    require_repo()
     from aiocoap import Message, GET, error
     from aiocoap.message import UndecidedRemote
     from aiocoap.util import hostportjoin, hostportsplit
@@ -350,11 +403,16 @@ def eval_text(case):
     except Exception as e:
         out.append(_v("C16_ComposeNormalForm", nf, "%r: composing the options back raised %s" % (text, _exc(e)), case))
         return out, None
+    drift = None
     if g not in nfs:
         out.append(_v("C16_ComposeNormalForm", nf, "%r composes back to %r, expected %r" % (text, g, nfs[0]), case))
+    elif g not in nfs[0::3] and g not in nfs[1::3]:
+        drift = (text, g)  # accepted, but the model's generator would not write it: empty port left behind ":"
     check_recompose(g, accept, ob, case, out, "from text %r" % text)
     # the same with the host kept out of the options (set_uri_host=False): the
     # URI composed from that message still has to decompose to the same options
+    if case.get("novariant"):
+        return out, drift
     try:
         m3 = Message(code=GET)
         m3.set_request_uri(text, set_uri_host=False)
@@ -365,7 +423,7 @@ def eval_text(case):
             out.append(_v("C16_RecomposeStable", nf, "%r (set_uri_host=False) composes to %r which decomposes differently: %s" % (text, g3, why), case))
     except Exception as e:
         out.append(_v("C16_RecomposeStable", nf, "%r (set_uri_host=False): %s" % (text, _exc(e)), case))
-    return out, None
+    return out, drift
 
 
 RESOLVED = "192.0.2.7"  # stands for the address a reg-name resolved to
@@ -455,6 +513,7 @@ EVAL = {"text": eval_text, "opts": eval_opts, "reject": eval_reject, "hostport":
 
 
 def _eval_chunk(chunk):
+    """Static cases (already parsed)."""
     if not _A:
         _init_worker()
     res = []
@@ -468,17 +527,53 @@ def _eval_chunk(chunk):
     return {"results": res}
 
 
-def run_cases(cases):
-    n = max(1, min(2000, len(cases) // 64 + 1))
-    chunks = [cases[i : i + n] for i in range(0, len(cases), n)]
+def _eval_lines(job):
+    """C16U lines as printed by TLC: parse, evaluate every text and the option
+    set of every state; only what the verdict needs travels back."""
+    lines, all_variants = job
+    if not _A:
+        _init_worker()
+    viols, index, composed, drifts = [], [], [], []
+    sample = None
+    case = None
+    try:
+        for line in lines:
+            tcases, ocase = state_cases(parse_line(line), all_variants)
+            dig = expectation_digest(tcases[0])
+            for case in tcases:
+                vs, drift = eval_text(case)
+                viols.extend(vs)
+                index.append((case["text"], dig))
+                if drift:
+                    drifts.append(drift)
+            case = ocase
+            vs, (g, degenerate) = eval_opts(ocase)
+            viols.extend(vs)
+            index.append((None, (opt_key(ocase["opt"]), ocase["nf"][0], degenerate)))
+            if g is not None and not degenerate:
+                composed.append((g, ocase))
+            if sample is None:
+                sample = (tcases[-1], ocase)
+    except MachineryError as e:
+        return {"error": str(e)}
+    except Exception:
+        import traceback
+
+        return {"error": "case %r\n%s" % (case, traceback.format_exc())}
+    return {"viols": viols, "index": index, "composed": composed, "drifts": drifts, "sample": sample}
+
+
+def _pool_map(fn, jobs):
     with Pool(min(16, os.cpu_count() or 4)) as p:
-        outs = p.map(_eval_chunk, chunks)
-    res = []
+        outs = p.map(fn, jobs, chunksize=1)
     for o in outs:
         if "error" in o:
             raise MachineryError("driver failed: " + o["error"])
-        res.extend(o["results"])
-    return res
+    return outs
+
+
+def _chunks(xs, n):
+    return [xs[i : i + n] for i in range(0, len(xs), n)]
 
 
 # --------------------------------------------------------------------------- verdicts
@@ -532,57 +627,109 @@ def work(rep, args):
         replay(rep, args.replay)
         return
     tier = args.tier
-    gc, pc = gen_consts(tier), pair_consts(tier)
+    runs, pc = gen_runs(tier), pair_consts(tier)
+    to = 300 if tier == "quick" else 1500
     t0 = time.time()
     with tlc.Workdir() as wd:
-        wd.write("CoapUri_gen.cfg", cfg_text(gc, False, True, GEN_INVARIANTS))
-        gen = tlc.run(wd, "CoapUri.tla", "CoapUri_gen.cfg", timeout=240 if tier == "quick" else 1500, heap="6g")
-        tlc.need_ok_run(gen, "CoapUri generator")
-        if gen.violated:
-            raise MachineryError("CoapUri: spec-internal invariant %s fails; the model is inconsistent" % gen.violated)
-        wd.write("CoapUri_pair.cfg", cfg_text(pc, True, False, PAIR_INVARIANTS))
-        pair = tlc.run(wd, "CoapUri.tla", "CoapUri_pair.cfg", timeout=240 if tier == "quick" else 1500, heap="6g")
-        tlc.need_ok_run(pair, "CoapUri pair mode")
-        if pair.violated:
-            raise MachineryError("CoapUri: %s fails in pair mode; the model is ambiguous" % pair.violated)
+        jobs = []
+        for name, c, emit, workers in runs:
+            cfg = "CoapUri_%s.cfg" % name
+            wd.write(cfg, cfg_text(c, False, emit, GEN_INVARIANTS))
+            jobs.append((name, cfg, workers))
+        wd.write("CoapUri_pair.cfg", cfg_text(pc, True, "none", PAIR_INVARIANTS))
+        jobs.append(("pair", "CoapUri_pair.cfg", max(2, 16 - sum(w for _, _, w in jobs))))
+        # the runs are independent: side by side, sharing the cores
+        with ThreadPoolExecutor(len(jobs)) as ex:
+            futs = {
+                name: ex.submit(
+                    tlc.run, wd, "CoapUri.tla", cfg, workers=w, timeout=to, heap="4g",
+                    env={"JAVA_TOOL_OPTIONS": "-XX:ParallelGCThreads=%d" % max(2, w // 2)},
+                )
+                for name, cfg, w in jobs
+            }
+            res = {name: f.result() for name, f in futs.items()}
+    for name, r in res.items():
+        tlc.need_ok_run(r, "CoapUri %s" % name)
+        if r.violated:
+            raise MachineryError("CoapUri (%s run): spec-internal invariant %s fails; the model is inconsistent" % (name, r.violated))
     t_tlc = time.time() - t0
-    tcases, ocases, nstates = build_cases(gen)
-    rej, hp = build_static(gen)
-    gen.out = ""  # free
-    cases = tcases + ocases + rej + hp
-    t1 = time.time()
-    results = run_cases(cases)
-    t_impl = time.time() - t1
+    pair = res["pair"]
+    ulines, static_lines = [], {"C16R": [], "C16H": []}
+    per_run = {}
+    for name, c, emit, workers in runs:
+        r = res[name]
+        lines = case_lines(r.out)
+        r.out = ""  # free
+        if len(lines["C16U"]) != r.distinct:
+            raise MachineryError("%s run: TLC found %d states but printed %d C16U lines" % (name, r.distinct, len(lines["C16U"])))
+        ulines += lines["C16U"]
+        static_lines["C16R"] += lines["C16R"]
+        static_lines["C16H"] += lines["C16H"]
+        per_run[name] = {"states": r.distinct, "transitions": r.generated, "depth": r.depth, "constants": c, "wall_s": round(r.wall, 1)}
+    nstates = len(ulines)
+    rej, hp = build_static(static_lines)
+    static = rej + hp
 
-    viols = []
+    t1 = time.time()
+    all_variants = tier != "quick"
+    outs = _pool_map(_eval_lines, [(ch, all_variants) for ch in _chunks(ulines, max(20, min(400, nstates // 96 + 1)))])
+    souts = _pool_map(_eval_chunk, _chunks(static, max(50, len(static) // 32 + 1)))
+    t_impl = time.time() - t1
+    del ulines
+
+    viols, drifts = [], []
+    text_exp, opt_nf, nf_opt = {}, {}, {}
     composed = {}
-    reject_outcomes = {}
-    for case, (vs, extra) in zip(cases, results):
-        viols.extend(vs)
-        if case["kind"] == "opts" and extra and extra[0] is not None and not extra[1]:
-            g = extra[0]
-            other = composed.get(g)
-            if other is not None and opt_key(other["opt"]) != opt_key(case["opt"]):
+    ntext_evals = 0
+    for o in outs:
+        viols.extend(o["viols"])
+        drifts.extend(o["drifts"])
+        for text, dig in o["index"]:
+            if text is not None:
+                ntext_evals += 1
+                # the model must give one expectation per text, one normal form per option set, and distinct
+                # normal forms to distinct (non-degenerate) option sets (cross-check of the pair run on everything printed)
+                if text_exp.setdefault(text, dig) != dig:
+                    raise MachineryError("the model prints two different expectations for the text %r" % text)
+            else:
+                k, nf, degenerate = dig
+                if opt_nf.setdefault(k, nf) != nf:
+                    raise MachineryError("the model prints two normal forms for the option set %r" % (k,))
+                if not degenerate and nf_opt.setdefault(nf, k) != k:
+                    raise MachineryError("model: two option sets with the normal form %r" % nf)
+        for g, ocase in o["composed"]:
+            other = composed.setdefault(g, ocase)
+            if opt_key(other["opt"]) != opt_key(ocase["opt"]):
                 viols.append(
                     _v(
                         "C16_Injective",
                         g,
-                        "option sets %r and %r both compose to %r" % (opt_key(other["opt"]), opt_key(case["opt"]), g),
-                        {"kind": "collision", "a": other, "b": case, "nf": [g]},
+                        "option sets %r and %r both compose to %r" % (opt_key(other["opt"]), opt_key(ocase["opt"]), g),
+                        {"kind": "collision", "a": other, "b": ocase, "nf": [g]},
                     )
                 )
-            else:
-                composed[g] = case
+    reject_outcomes = {}
+    open_accepted = []
+    sres = [x for o in souts for x in o["results"]]
+    for case, (vs, extra) in zip(static, sres):
+        viols.extend(vs)
         if case["kind"] == "reject":
             k = case["cls"] + ("" if case["judged"] else " (border case, not judged)")
             d = reject_outcomes.setdefault(k, {})
             d[extra] = d.get(extra, 0) + 1
+            if extra == "accepted-open":
+                open_accepted.append(case["text"])
     totals = report(rep, viols)
-    open_accepted = sorted(c["text"] for c, (vs, extra) in zip(cases, results) if c["kind"] == "reject" and extra == "accepted-open")
+    drifts.sort(key=lambda d: (len(d[0]), d))
+    if drifts:
+        rep.add_drift(
+            "%d texts with an empty port (\"host:\") compose to a URI that keeps the bare colon, e.g. %r -> %r; equivalent and accepted, "
+            "but not the RFC 7252 6.5 form the model writes" % (len(drifts), drifts[0][0], drifts[0][1])
+        )
     if open_accepted:
         rep.notes.append(
             "border cases the statement does not classify were accepted (not judged): %d texts, e.g. %s"
-            % (len(open_accepted), ", ".join(repr(t) for t in sorted(open_accepted, key=len)[:4]))
+            % (len(open_accepted), ", ".join(repr(t) for t in sorted(open_accepted, key=lambda t: (len(t), t))[:4]))
         )
 
     def sample(c):
@@ -590,31 +737,35 @@ def work(rep, args):
         c.pop("kind", None)
         return c
 
+    samples = []
+    for o in (outs[0], outs[len(outs) // 2], outs[-1]):
+        if o["sample"]:
+            samples += [sample(o["sample"][0]), sample(o["sample"][1])]
+    samples += [sample(rej[len(rej) // 2]), sample(hp[len(hp) // 2])]
+    ncases = ntext_evals + len(opt_nf) + len(static)
+
     classes = sorted({c["cls"] for c in rej})
     rep.coverage.update(
         {
-            "states": gen.distinct,
-            "transitions": gen.generated,
-            "depth": gen.depth,
-            "pair_states": pair.distinct,
-            "pair_transitions": pair.generated,
+            "states": sum(x["states"] for x in per_run.values()) + pair.distinct,
+            "transitions": sum(x["transitions"] for x in per_run.values()) + pair.generated,
+            "generator_runs": per_run,
+            "pair_run": {"states": pair.distinct, "transitions": pair.generated, "depth": pair.depth, "constants": pc, "wall_s": round(pair.wall, 1)},
             "exhaustive": True,
-            "generator_constants": gc,
-            "pair_constants": pc,
             "spec_invariants": ["TypeOK"] + GEN_INVARIANTS[:2] + PAIR_INVARIANTS,
             "structured_uris": nstates,
-            "texts": len(tcases),
-            "option_sets": len(ocases),
+            "texts": len(text_exp),
+            "option_sets": len(opt_nf),
             "reject_texts": len(rej),
             "reject_classes": classes,
             "reject_outcomes": reject_outcomes,
             "hostport_strings": len(hp),
-            "traces_validated_against_impl": len(cases),
+            "traces_validated_against_impl": ncases,
             "distinct_nontrivial": len(composed),
             "violating_inputs_by_clause": totals,
             "tlc_wall_s": round(t_tlc, 1),
             "impl_wall_s": round(t_impl, 1),
-            "samples": [sample(tcases[len(tcases) // 3]), sample(tcases[-1]), sample(ocases[len(ocases) // 2]), sample(rej[len(rej) // 2]), sample(hp[len(hp) // 2])],
+            "samples": samples,
             "checker_cmd": "tlc CoapUri.tla (generator: exhaustive, invariants + printed cases) ; tlc CoapUri.tla PairMode=TRUE (ComposeInjective, TextUnambiguous)",
         }
     )
@@ -623,8 +774,8 @@ def work(rep, args):
         "hosts are RFC 3986 reg-names, IPv4 and IPv6 literals from HostTab; IPvFuture, dot segments, percent-encoded upper-case letters in hosts and unescaped non-ASCII text are not generated",
         "a single empty query ('...?') and an empty userinfo / fragment delimiter are not judged (statement silent)",
         "a default port may be spelled out or omitted in the composed URI",
-        "bounds: %d structured URIs over an alphabet of %d code points, total segment characters <= %d (reference base) / %d (other bases)"
-        % (nstates, len(gc["alphabet"]), gc["rich"], gc["basebudget"]),
+        "bounds: %d structured URIs; wide run: alphabet of %d code points, <= %d segment characters on the reference base, <= %d on the others; deep run: alphabet of %d, <= %d characters"
+        % (nstates, len(runs[0][1]["alphabet"]), runs[0][1]["rich"], runs[0][1]["basebudget"], len(runs[1][1]["alphabet"]), runs[1][1]["rich"]),
     ]
 
 
